@@ -65,6 +65,7 @@ type GenOpts struct {
 	Headerless  bool // allow headerless
 	MixedCase   bool // allow lower/mixed case names
 	MaxChain    int
+	Geometry    bool // allow the special batch geometries (many blocks / big blocks)
 }
 
 func jobsDraw(t *sim.Tape, max int) int {
@@ -490,4 +491,51 @@ func GenPartition(t *sim.Tape, n int, blockSize int) []int {
 		ps = append(ps, rem)
 	}
 	return ps
+}
+
+// Geometry overrides block size / data length with one of the special batch
+// geometries that ordinary sampling hardly reaches: very many small blocks
+// (the block count derived from the size hint is capped at 63, the job count at
+// 64) or blocks larger than the 256 KiB minimum buffer. The codecs are forced to
+// cheap ones so that these cases stay affordable. Returns "" when the ordinary
+// geometry is kept.
+func Geometry(t *sim.Tape, cfg *Config, rec *DataRecipe, thorough bool) string {
+	switch t.Pick(22, 2, 1) {
+	case 1:
+		cfg.BlockSize = 1024
+		if t.Intn(4) == 0 {
+			cfg.BlockSize = 1024 + 16*t.Intn(64)
+		}
+		var nb int
+		switch t.Intn(4) {
+		case 0:
+			nb = 62 + t.Intn(5) // around the 63-block cap
+		case 1:
+			nb = 126 + t.Intn(5)
+		case 2:
+			nb = 64
+		default:
+			nb = 60 + t.Intn(90)
+		}
+		rec.Len = nb*cfg.BlockSize - t.Intn(cfg.BlockSize)
+		if t.Intn(3) == 0 {
+			rec.Len = nb * cfg.BlockSize
+		}
+		cfg.Transform = cheapTransforms[t.Intn(3)]
+		cfg.Entropy = cheapEntropy[t.Intn(2)]
+		return "manyblocks"
+	case 2:
+		hi := 1 << 20
+		if thorough {
+			hi = 3 << 20
+		}
+		cfg.BlockSize = 256*1024 + 16*t.Intn((hi-256*1024)/16)
+		rec.Len = cfg.BlockSize/4 + t.Intn(2*cfg.BlockSize)
+		cfg.Transform = []string{"NONE", "LZ", "RLT", "LZP"}[t.Intn(4)]
+		cfg.Entropy = []string{"NONE", "HUFFMAN"}[t.Intn(2)]
+		cfg.Jobs = min(cfg.Jobs, 4)
+		cfg.DecJobs = min(cfg.DecJobs, 4)
+		return "bigblock"
+	}
+	return ""
 }
